@@ -190,12 +190,27 @@ def value_of(func, expr, depth=0):
         def visit_Call(self, node):
             self.generic_visit(node)
             h = _helper_of(func, node) if hasattr(func, 'cls') else None
-            if h is not None and not node.args and not node.keywords:
+            if h is not None:
+                from .paths import _bind_args
+                binding = _bind_args(h, node)
                 rets = [r for r in walk_no_nested(h.node)
                         if isinstance(r, ast.Return)]
-                if len(rets) == 1 and rets[0].value is not None:
-                    return value_of(h, copy.deepcopy(rets[0].value),
-                                    depth + 1)
+                rebound = {x.id for x in ast.walk(h.node)
+                           if isinstance(x, ast.Name) and
+                           isinstance(x.ctx, (ast.Store, ast.Del))}
+                if binding is not None and len(rets) == 1 and \
+                        rets[0].value is not None and \
+                        not (set(binding) & rebound):
+                    val = value_of(h, copy.deepcopy(rets[0].value),
+                                   depth + 1)
+
+                    class B(ast.NodeTransformer):
+                        def visit_Name(self, n):
+                            if isinstance(n.ctx, ast.Load) and \
+                                    n.id in binding:
+                                return copy.deepcopy(binding[n.id])
+                            return n
+                    return B().visit(val)
             return node
 
         def visit_Lambda(self, node):
